@@ -1479,6 +1479,17 @@ impl<'a, M: Matcher, W: WriteColor> StandardImpl<'a, M, W> {
             );
             self.write(remainder.as_bytes())?;
         } else if let Some(byte) = bin.convert_byte() {
+            // When this notice is the only thing printed for this search, the
+            // separator between searches is still owed (the search prelude,
+            // which normally writes it, is bypassed here).
+            if self.wtr().borrow().count() == 0 {
+                if let Some(ref sep) = *self.config().separator_search {
+                    if self.wtr().borrow().total_count() > 0 {
+                        self.write(sep)?;
+                        self.write_line_term()?;
+                    }
+                }
+            }
             if let Some(path) = self.path() {
                 self.write_path_hyperlink(path)?;
                 self.write(b": ")?;
